@@ -281,37 +281,48 @@ fn cell_bin(f: fn(V, V) -> V, op: B, ka: u8, kb: u8) {
     core::mem::forget((a, b, r, s));
 }
 
-/// all 25 ordered pairs of scalar operand kinds, each with concrete kinds and symbolic payloads
-pub fn check_bin_scalar(idx: usize, name: &str, op: B) {
+/// The 25 ordered pairs of scalar operand kinds in four groups, each cell with concrete kinds and
+/// symbolic payloads: 0 = numeric pairs, 1 = an error operand, 2 = bool/none with a number, 3 = the rest.
+pub fn check_bin_scalar(idx: usize, name: &str, op: B, group: u8) {
     let ops = ValOpsFactory::<i32, f64>::make();
     assert!(ops[idx].repr() == name);
     let f = ops[idx].bin().unwrap().apply;
-    cell_bin(f, op, 0, 0);
-    cell_bin(f, op, 0, 1);
-    cell_bin(f, op, 1, 0);
-    cell_bin(f, op, 1, 1);
-    cell_bin(f, op, 0, 2);
-    cell_bin(f, op, 2, 0);
-    cell_bin(f, op, 1, 2);
-    cell_bin(f, op, 2, 1);
-    cell_bin(f, op, 2, 2);
-    cell_bin(f, op, 0, 3);
-    cell_bin(f, op, 3, 0);
-    cell_bin(f, op, 1, 3);
-    cell_bin(f, op, 3, 1);
-    cell_bin(f, op, 2, 3);
-    cell_bin(f, op, 3, 2);
-    cell_bin(f, op, 3, 3);
-    cell_bin(f, op, 0, 4);
-    cell_bin(f, op, 4, 0);
-    cell_bin(f, op, 1, 4);
-    cell_bin(f, op, 4, 1);
-    cell_bin(f, op, 2, 4);
-    cell_bin(f, op, 4, 2);
-    cell_bin(f, op, 3, 4);
-    cell_bin(f, op, 4, 3);
-    cell_bin(f, op, 4, 4);
-    kani::cover!(true, "all 25 cells executed");
+    match group {
+        0 => {
+            cell_bin(f, op, 0, 0);
+            cell_bin(f, op, 0, 1);
+            cell_bin(f, op, 1, 0);
+            cell_bin(f, op, 1, 1);
+        }
+        1 => {
+            cell_bin(f, op, 0, 4);
+            cell_bin(f, op, 4, 0);
+            cell_bin(f, op, 1, 4);
+            cell_bin(f, op, 4, 1);
+            cell_bin(f, op, 4, 4);
+        }
+        2 => {
+            cell_bin(f, op, 0, 2);
+            cell_bin(f, op, 2, 0);
+            cell_bin(f, op, 1, 2);
+            cell_bin(f, op, 2, 1);
+            cell_bin(f, op, 0, 3);
+            cell_bin(f, op, 3, 0);
+            cell_bin(f, op, 1, 3);
+            cell_bin(f, op, 3, 1);
+        }
+        _ => {
+            cell_bin(f, op, 2, 2);
+            cell_bin(f, op, 2, 3);
+            cell_bin(f, op, 3, 2);
+            cell_bin(f, op, 3, 3);
+            cell_bin(f, op, 2, 4);
+            cell_bin(f, op, 4, 2);
+            cell_bin(f, op, 3, 4);
+            cell_bin(f, op, 4, 3);
+        }
+    }
+    kani::cover!(true, "all cells of the group executed");
     core::mem::forget(ops);
 }
 
